@@ -169,6 +169,9 @@ class TransposeIndexRule(AbstractBinaryRule):
         assert isinstance(index, Array)
 
         size_max = shape[axis]
+        # negative entries alias the elements they wrap to: count them together, so that at most
+        # size_max distinct values remain
+        index = jnp.where(index < 0, index + size_max, index)
         unique_indices, counts = jnp.unique(index, return_counts=True, size=size_max, fill_value=-1)
         coverage = jnp.zeros(size_max, dtype=dtype)
         coverage = coverage.at[unique_indices].add(
